@@ -436,12 +436,13 @@ _crc_tab = None
 def crc32c(seed, data):
     global _crc_tab
     if _crc_tab is None:
-        _crc_tab = []
+        tab = []
         for i in range(256):
             c = i
             for _ in range(8):
                 c = (c >> 1) ^ (0x82F63B78 if c & 1 else 0)
-            _crc_tab.append(c)
+            tab.append(c)
+        _crc_tab = tab          # published only when complete (checks run reader threads)
     c = seed
     t = _crc_tab
     for b in data:
